@@ -92,7 +92,7 @@ def findWrappingTypes (S : Schema) (d : Dfa) (q : Nat) (target : TypeId) : Optio
 /-! ### creating nodes -/
 
 /-- `Node(type, attrs, content, marks)`: leaf types are the `.leaf` constructor of the model -/
-def Schema.mkNode (S : Schema) (ty : TypeId) (attrs : Attrs) (marks : Marks) (kids : List Node) : Node :=
+def Schema.mkNodeO (S : Schema) (ty : TypeId) (attrs : Attrs) (marks : Marks) (kids : List Node) : Node :=
   if (S.nodeType ty).isLeaf then .leaf ty attrs marks else .elem ty attrs marks kids
 
 /-- `type.create_and_fill()` (no attributes, no content, no marks): default attributes, content
@@ -111,7 +111,7 @@ def createAndFill (S : Schema) : (fuel : Nat) → TypeId → Option Node
       | some tys =>
         match tys.mapM (createAndFill S fuel) with
         | none => none
-        | some kids => some (S.mkNode ty attrs [] kids)
+        | some kids => some (S.mkNodeO ty attrs [] kids)
 
 /-- the nodes of a `fill_before` answer.  Outer `none` = the code raises while building the
     fragment; inner `none` = `fill_before` returns `None`. -/
